@@ -402,6 +402,13 @@ pub fn run() {
         mods.append((k, rec))
         meta[k] = ([], set(), "recursive_" + n, None)
     log(f"[C06] {len(cases)} builder scripts replayed, {len(mods)} twin types x {len(specs)} specs")
+    # the derive named through each of the crate's three paths (a third of the twin types each): `derive_more::with_trait::Debug`
+    # must be derive_more's macro too - where it is std's derive, `#[debug(..)]` attributes are unknown and generic bounds differ
+    def _path(k, text):
+        pick = vlib.seeded_pick(k, 61, 3)
+        alt = {1: "derive_more::with_trait::Debug", 2: "derive_more::derive::Debug"}.get(pick)
+        return text.replace("#[derive(derive_more::Debug)]", f"#[derive({alt})]") if alt else text
+    mods = [(k, _path(k, m)) for k, m in mods]
     nsh = 4
     shards = [mods[i::nsh] for i in range(nsh)]
     import concurrent.futures as cf
